@@ -110,11 +110,13 @@ func (h c01Hdr) wire() vf.Wire {
 		vf.KV{K: "crit", V: vf.Wire{Kind: vf.KArr, Arr: crit}})
 }
 
-// algorithm and kid a finder sees: protected header first, else unprotected (jws.JWKKeyFinder)
+// algorithm and kid a finder sees: the protected header's, else — when there is none or it names
+// none — the unprotected header's (jws.JWKKeyFinder)
 func c01FinderView(p, u c01Hdr) (alg, kid string) {
 	if p.present {
 		alg = p.alg
-	} else if u.present {
+	}
+	if alg == "" && u.present {
 		alg = u.alg
 	}
 	if p.present && p.kid != "" {
@@ -413,7 +415,8 @@ func c01DirectEntry(cs c01Case, protText string, hasProt bool, unprot map[string
 	var alg, kid string
 	if hasProt {
 		alg = str(protRaw, "alg")
-	} else if hasUnprot {
+	}
+	if alg == "" && hasUnprot { // RFC 7515 §4.1.1: alg may be in either header
 		alg = str(unprot, "alg")
 	}
 	if hasProt && str(protRaw, "kid") != "" {
